@@ -50,7 +50,11 @@ type FStep struct {
 }
 
 // Get advances the model by one Get at instant now whose builder (if invoked) succeeds or fails.
-func (m *FModel) Get(now time.Time, buildOK bool) FStep {
+func (m *FModel) Get(now time.Time, buildOK bool) FStep { return m.GetWithTTL(now, buildOK, 0) }
+
+// GetWithTTL is Get for a caller whose context carries a TTL (0: none): a value built for it is stored with that
+// TTL; the temporary re-store of a stale value and the cached failure keep their own lifetimes.
+func (m *FModel) GetWithTTL(now time.Time, buildOK bool, callerTTL time.Duration) FStep {
 	in := FIn{State: m.State(now), FailCached: m.FailureCached(now), SU: m.SU, FH: m.FH, MS: m.MS, FTNeg: m.FTNeg, BuildOK: buildOK}
 	out := FailoverTable(in)
 	st := FStep{In: in, Out: out, Ambiguous: len(out.Results) > 1, OldVal: m.Val, NewIdx: m.Builds}
@@ -76,7 +80,12 @@ func (m *FModel) Get(now time.Time, buildOK bool) FStep {
 		m.Builds++
 
 		if buildOK {
-			m.Has, m.Val, m.Exp = true, st.NewIdx, now.Add(m.TTL)
+			ttl := m.TTL
+			if callerTTL != 0 {
+				ttl = callerTTL
+			}
+
+			m.Has, m.Val, m.Exp = true, st.NewIdx, now.Add(ttl)
 			// a successful build does not clear the failure cache; it simply is not consulted while the value is fresh
 		} else if !m.FTNeg {
 			m.FHas, m.FErr, m.FExp = true, st.NewIdx, now.Add(m.FailTTL)
